@@ -9,7 +9,8 @@ class Check(PropertyCheck):
     rule = ("multi-actor histories on the real contracts in cw-multi-test (4 users, 2 native denoms, 2 cw20s, pairs of all "
             "three kinds; every user holds balances and open allowances toward every pair): provisions, swaps by both "
             "entry points, withdrawals, router routes, donations, mints/burns, malformed and rogue calls; plus histories "
-            "with donations up to 2^119.  After every step the full ledger snapshot (all accounts x all assets, supplies, "
+            "with donations up to 2^119 and the initial-provision matrix (caller whitelisted or not x receiver x minimums, "
+            "everybody holding open allowances).  After every step the full ledger snapshot (all accounts x all assets, supplies, "
             "allowances, factory and pair records) is compared with the model and the frame / conservation monitor is "
             "evaluated on the implementation's snapshots.  Non-trivial = a history with at least 2 successful "
             "transactions.  Distinct by (world parameters, operation list).")
@@ -18,4 +19,6 @@ class Check(PropertyCheck):
 
     def families(self, rng, tier):
         return [("world.general", fam_world.general_histories(rng, tier)),
-                ("world.extreme", fam_world.extreme_histories(rng, tier))]
+                ("world.extreme", fam_world.extreme_histories(rng, tier)),
+                ("world.first_provision", fam_world.first_provision_matrix(rng, tier)),
+                ("world.lookalike", fam_world.lookalike_histories(rng, tier))]
